@@ -112,6 +112,16 @@ def _retry_corrupt(evs, profile):
     return None
 
 
+def _backoff_corrupt(evs, profile):
+    out = [dict(e) for e in evs]
+    # a delay above the cap / off the schedule
+    for e in out[3:]:
+        if e.get('e') == 'delay' and not e.get('far') and out[0]['cfg'].get('f2') == 0:
+            e['d'] = e['d'] + 7
+            return out
+    return None
+
+
 COMPONENTS = {
     'bulkhead': {
         'spec_files': ['Bulkhead.tla', 'MC_Bulkhead.tla', 'Trace_Bulkhead.tla'],
@@ -177,6 +187,14 @@ COMPONENTS = {
         'random': {'quick': [{'runs': 1500}], 'thorough': [{'runs': 20000}]},
         'corrupt': _retry_corrupt,
     },
+    'backoff': {
+        'spec_files': ['Backoff.tla', 'MC_Backoff.tla', 'Trace_Backoff.tla'],
+        'mc': {'quick': [{'cfg': 'MC_Backoff.cfg', 'module': 'MC_Backoff'}], 'thorough': [{'cfg': 'MC_Backoff.cfg', 'module': 'MC_Backoff'}]},
+        'trace_module': 'Trace_Backoff', 'trace_cfg_tmpl': 'Trace_Backoff.cfg.tmpl',
+        'harness': 'backoff',
+        'random': {'quick': [{'runs': 0}], 'thorough': [{'runs': 0}]},
+        'corrupt': _backoff_corrupt,
+    },
 }
 
 PROPS = {
@@ -190,6 +208,7 @@ PROPS = {
     'C08': {'comp': 'budget', 'profile': 'lin'},
     'C13': {'parts': [{'comp': 'limit', 'profile': 'bounds'}, {'comp': 'adaptive', 'profile': 'service'}]},
     'C05': {'comp': 'retry', 'profile': 'full'},
+    'C14': {'comp': 'backoff', 'profile': 'schedule'},
     'C02': {'comp': 'ratelimiter', 'profile': 'ProfC02', 'drift_profile': 'ProfAll'},
     'C15': {'comp': 'ratelimiter', 'profile': 'ProfC15', 'drift_profile': 'ProfAll'},
 }
